@@ -10,7 +10,9 @@ import (
 	"fmt"
 	"io/ioutil"
 	"os"
+	"strconv"
 	"testing"
+	"time"
 )
 
 type verifCase struct {
@@ -69,8 +71,30 @@ func TestVerifReplay(t *testing.T) {
 	}
 	SetLogger(verifNullLogger{})
 	results := make([]verifResult, len(cases))
+	limit := 20 * time.Second
+	if ms, err := strconv.Atoi(os.Getenv("VERIF_CASE_TIMEOUT_MS")); err == nil && ms > 0 {
+		limit = time.Duration(ms) * time.Millisecond
+	}
+	for i := range results {
+		results[i].End = "notrun"
+	}
 	for i, c := range cases {
-		results[i] = verifRunCase(c)
+		// a case that blocks forever (a lock taken twice by one goroutine) must not take the others with it:
+		// it is reported as "hang" and the cases after it are left to a fresh process, since the blocked
+		// goroutine may hold locks and has not restored package-level state
+		done := make(chan verifResult, 1)
+		go func() { done <- verifRunCase(c) }()
+		hung := false
+		select {
+		case r := <-done:
+			results[i] = r
+		case <-time.After(limit):
+			results[i] = verifResult{End: "hang"}
+			hung = true
+		}
+		if hung {
+			break
+		}
 	}
 	b, _ := json.Marshal(results)
 	if out != "" {
